@@ -9,7 +9,18 @@
 //        IniFile.
 //   csv: random tables of up to 30 rows x 8 columns of numbers (1..15 significant digits, exponents mostly -30..30 and sometimes over the whole double range, integers,
 //        zero, negative) and strings over letters , ; " ' and blanks.
-// Nothing is compared here: TLC decides (IniOK / CsvRows on the logged bytes).
+// growth executions (half of the executions, all of them with --mode 1):
+//   api:  a session on one IniFile object over a random text (also with a byte order mark, keys and sections given twice, a Qt
+//         style array, lines of 900..2500 bytes; sometimes no file at all): 1..24 calls out of set() / operator[]= (existing keys,
+//         new keys, new sections, plain names, values with blanks around them), operator[] reads of existing and missing names,
+//         section(), arraysize()/array(), write(), write(name), a write to a path that cannot be written, destroying the object and
+//         opening a new one (sometimes with shouldwrite = false), and the const queries (operator[], has(), operator()(name, default),
+//         sectionNames(), values(), values(section)) on samples of the names; one event per call.
+//   csvw: tables of 0..20 rows x 1..6 columns written with options (5 separator/decimal combinations, useQuotes, flushEvery 0..4, short
+//         rows ended with "\n", numeric column names, ARFF with numeric/string/nominal columns), the file after every row, read back.
+//   csvr: files as other tools write them (3 dialects, header or not, CR LF, byte order mark, last row without newline, ragged rows,
+//         trailing separator, empty lines, quoted cells and quoted numbers) read with nextRow()/row(), file[name], data().
+// Nothing is compared here: TLC decides (IniOK / CsvRows / the object state machine / CsvWOK / CsvRead on the logged bytes).
 #include "c18_common.h"
 #include "vrec.h"
 #include <set>
@@ -212,6 +223,331 @@ static void csvExecution(Rng& rng, Log& log, const TmpDir& tmp, bool avoidTiny)
 	}
 }
 
+// ---- growth: sessions on one IniFile object -------------------------------------------------------------------------------
+// a random INI text (as in iniExecution, plus: a byte order mark, keys given twice, sections given twice, a Qt style array, lines
+// of more than 1000 bytes) and what the recorder has to know about it
+struct IniText
+{
+	std::string text;
+	std::vector<Entry> present;
+	std::vector<std::string> sections;
+	bool anyHeader, topKeys;
+};
+static IniText randomIniText(Rng& rng, bool avoidLast, bool avoidBom)
+{
+	IniText t;
+	t.anyHeader = t.topKeys = false;
+	std::vector<std::string> lines;
+	std::string cur = "-";
+	int nl = rng.chance(10) ? 0 : rng.chance(70) ? rng.range(1, 8) : rng.range(9, 30);
+	for (int i = 0; i < nl; i++)
+	{
+		int k = rng.below(100);
+		if (k < 18)
+		{
+			std::string name = rng.chance(15) && !t.sections.empty() ? t.sections[(size_t)rng.below((int)t.sections.size())] : ident(rng, true);
+			if (name == "-") name = "m";
+			lines.push_back("[" + name + "]");
+			cur = name;
+			t.anyHeader = true;
+			t.sections.push_back(name);
+		}
+		else if (k < 22)
+		{
+			// Qt style array
+			lines.push_back("[arr]");
+			cur = "arr";
+			t.anyHeader = true;
+			t.sections.push_back("arr");
+			int n = rng.range(0, 3);
+			lines.push_back("size=" + std::to_string(n));
+			Entry e;
+			e.sec = cur; e.key = "size"; e.val = std::to_string(n);
+			t.present.push_back(e);
+			for (int j = 1; j <= n; j++)
+			{
+				e.key = std::to_string(j) + "\\f";
+				e.val = value(rng);
+				lines.push_back(e.key + "=" + e.val);
+				t.present.push_back(e);
+			}
+		}
+		else if (k < 70)
+		{
+			std::string key = ident(rng, false);
+			if (key.find(' ') != std::string::npos) continue;
+			std::string v = rng.chance(2) ? std::string((size_t)rng.range(900, 2500), 'L') : value(rng);
+			std::string indent = rng.chance(25) ? (rng.chance(50) ? "  " : "\t") : "";
+			std::string eq = rng.chance(20) ? " = " : rng.chance(10) ? " =" : rng.chance(10) ? "= " : "=";
+			lines.push_back(indent + key + eq + v);
+			Entry e;
+			e.sec = cur; e.key = key; e.val = v;
+			t.present.push_back(e);
+			if (cur == "-") t.topKeys = true;
+		}
+		else if (k < 84)
+		{
+			std::string c = rng.chance(50) ? "#" : ";";
+			lines.push_back((rng.chance(15) ? "  " : "") + c + (rng.chance(30) ? " " + ident(rng, false) + "=" + value(rng) : " " + value(rng)));
+		}
+		else if (k < 96) lines.push_back("");
+		else lines.push_back(rng.chance(50) ? " " : "\t ");
+	}
+	bool crlf = rng.chance(35);
+	bool final = rng.chance(70);
+	if (avoidLast && !final && !lines.empty())
+	{
+		const std::string& last = lines.back();
+		size_t p = last.find_first_not_of(" \t");
+		if (p != std::string::npos && last[p] != '#' && last[p] != ';' && last[0] != '[') final = true;
+	}
+	if (!avoidBom && rng.chance(15)) t.text = "\xef\xbb\xbf";
+	for (size_t i = 0; i < lines.size(); i++)
+	{
+		t.text += lines[i];
+		if (i + 1 < lines.size() || final) t.text += crlf ? "\r\n" : "\n";
+	}
+	return t;
+}
+
+static void apiExecution(Rng& rng, Log& log, const TmpDir& tmp, bool avoidLast, bool avoidBom, bool avoidReadPersist, bool avoidFailedWrite)
+{
+	IniText t = randomIniText(rng, avoidLast, avoidBom);
+	bool exists = !rng.chance(6);
+	if (!exists) { t = IniText(); t.anyHeader = t.topKeys = false; }
+	std::vector<Entry> known = t.present;                 // names worth asking for
+	bool curKnown = !t.anyHeader || t.topKeys;            // plain names address the top section ...
+	bool curNamed = false;                                // ... or the section named by section() / arraysize()
+	bool otherSecSet = false;                             // a key outside the top section was set: a later file has a header
+	const std::string PLAIN(1, '\0');
+	ApiSession sess(tmp.path, (unsigned long)rng.below(2));
+	size_t logged = 0;
+	sess.start(t.text, exists);
+	bool sw = !rng.chance(8);
+	sess.open(sw);
+	bool anySet = false;
+	int nops = rng.range(1, 24);
+	for (int i = 0; i < nops; i++)
+	{
+		while (logged < sess.events.size()) log.line(sess.events[logged++]); // (a crash must not lose the events that led to it)
+		int k = rng.below(100);
+		if (k < 34)
+		{
+			Entry e;
+			int w = rng.below(100);
+			if (w < 40 && !known.empty()) e = known[(size_t)rng.below((int)known.size())];
+			else if (w < 65 && !t.sections.empty()) { e.sec = t.sections[(size_t)rng.below((int)t.sections.size())]; e.key = ident(rng, false); }
+			else if (w < 80 && curKnown) { e.sec = PLAIN; e.key = ident(rng, false); }
+			else { e.sec = ident(rng, true); if (e.sec == "-") e.sec = "m"; e.key = ident(rng, false); }
+			if (e.key.find(' ') != std::string::npos) continue;
+			if (e.sec == "-") e.sec = PLAIN;                                // top-level names are spelled without section
+			if (e.sec == PLAIN && !curKnown) continue;
+			e.val = value(rng);
+			if (rng.chance(10)) e.val = (rng.chance(50) ? " " : "") + e.val + (rng.chance(50) ? "  " : "\t");
+			// a new top-level key without value is not persisted; the first top-level entry decides what plain names mean later
+			if (e.sec == PLAIN && e.val.find_first_not_of(" \t") == std::string::npos && !t.topKeys) e.val = "0";
+			sess.set(e.sec, e.key, e.val);
+			anySet = true;
+			if (e.sec != PLAIN || curNamed) otherSecSet = true;
+			known.push_back(e);
+		}
+		else if (k < 48)
+		{
+			Entry e;
+			bool missing = !avoidReadPersist && rng.chance(45);
+			if (!missing && !known.empty()) e = known[(size_t)rng.below((int)known.size())];
+			else if (!missing) continue;
+			else if (rng.chance(60) && !t.sections.empty()) { e.sec = t.sections[(size_t)rng.below((int)t.sections.size())]; e.key = ident(rng, false); }
+			else { e.sec = ident(rng, true); if (e.sec == "-") e.sec = "m"; e.key = ident(rng, false); }
+			if (e.key.find(' ') != std::string::npos) continue;
+			if (e.sec == "-") e.sec = PLAIN;
+			if (e.sec == PLAIN && !curKnown) continue;
+			// (open finding ReadPersisted: only names the original file has under a section are certain to exist whatever happened since)
+			if (avoidReadPersist)
+			{
+				std::vector<Entry> sure;
+				for (size_t j = 0; j < t.present.size(); j++) if (t.present[j].sec != "-") sure.push_back(t.present[j]);
+				if (sure.empty()) continue;
+				e = sure[(size_t)rng.below((int)sure.size())];
+			}
+			sess.get(e.sec, e.key);
+			if (missing) known.push_back(e);
+		}
+		else if (k < 54 && !t.sections.empty()) { sess.cur(t.sections[(size_t)rng.below((int)t.sections.size())]); curKnown = curNamed = true; }
+		else if (k < 58) { sess.asize(rng.chance(70) ? "arr" : ident(rng, true)); curKnown = curNamed = true; }
+		else if (k < 62 && curKnown) sess.aget("f", rng.below(4));
+		else if (k < 76)
+		{
+			// the const queries: a sample of the known names, names nobody used, plain names when defined
+			std::vector<Entry> probes;
+			std::set<std::pair<std::string, std::string> > seen;
+			for (size_t j = 0; j < known.size(); j++)
+				if (rng.chance(known.size() > 12 ? 40 : 90))
+				{
+					Entry e = known[j];
+					if (e.sec == "-") e.sec = PLAIN;
+					if (e.sec == PLAIN && !curKnown) continue;
+					if (seen.insert(std::make_pair(e.sec, e.key)).second) probes.push_back(e);
+				}
+			for (int j = 0; j < 2; j++)
+			{
+				Entry e;
+				e.sec = rng.chance(30) && curKnown ? PLAIN : rng.chance(50) && !t.sections.empty() ? t.sections[(size_t)rng.below((int)t.sections.size())] : "nosuch";
+				e.key = rng.chance(50) ? "nokey" : ident(rng, false);
+				if (e.key.find(' ') != std::string::npos) continue;
+				if (seen.insert(std::make_pair(e.sec, e.key)).second) probes.push_back(e);
+			}
+			sess.observe(probes);
+		}
+		else if (k < 82 && sw) sess.write();
+		else if (k < 86 && sw && anySet) sess.writeTo();
+		else if (k < 90 && !(avoidFailedWrite && anySet)) sess.writeBad();
+		else if (k < 100)
+		{
+			sess.close();
+			sw = !rng.chance(8);
+			sess.open(sw);
+			anySet = false;
+			// what plain names mean on the new object: only certain when the top section had entries all along, or no header can exist
+			curKnown = t.topKeys || (!t.anyHeader && !otherSecSet);
+			curNamed = false;
+		}
+	}
+	while (logged < sess.events.size()) log.line(sess.events[logged++]);
+	sess.close();
+	while (logged < sess.events.size()) log.line(sess.events[logged++]);
+}
+
+// ---- growth: TabularDataFile with options, files of other tools ------------------------------------------------------------
+// a string that no dialect takes for a number
+static std::string csvString(Rng& rng)
+{
+	if (rng.chance(12)) return "";
+	static const char ALPHA[] = "abcdeXYZ,,;;\t\"\"''   .-5";
+	std::string s;
+	int n = rng.chance(15) ? rng.range(8, 40) : rng.range(1, 6);
+	for (int i = 0; i < n; i++) s += ALPHA[rng.below((int)sizeof(ALPHA) - 1)];
+	bool numeric = true;
+	for (size_t i = 0; i < s.size(); i++) if (!strchr("0123456789-+.,eE", s[i])) numeric = false;
+	if (numeric) s = "a" + s;
+	return s;
+}
+
+static void csvwExecution(Rng& rng, Log& log, const TmpDir& tmp, bool avoidTiny, bool avoidQuotes, bool avoidLastRow)
+{
+	WOptions o;
+	static const int DIALECT[5][2] = { { ',', '.' }, { ';', ',' }, { '\t', '.' }, { ';', '.' }, { '\t', ',' } };
+	int d = rng.chance(40) ? 0 : rng.below(5);
+	o.sep = DIALECT[d][0];
+	o.dec = DIALECT[d][1];
+	o.quotes = !avoidQuotes && rng.chance(25);
+	o.flush = rng.chance(50) ? 0 : rng.range(1, 4);
+	o.arff = rng.chance(10);
+	if (o.arff) { o.sep = ','; o.dec = '.'; }
+	int cols = rng.chance(20) ? 1 : rng.range(2, 6);
+	bool numericName = !o.arff && rng.chance(12);
+	for (int j = 0; j < cols; j++)
+	{
+		o.names.push_back(numericName && j == rng.below(cols) ? (rng.chance(50) ? "7" : "-3") : std::string(1, (char)('c' + j)) + (rng.chance(30) ? "ol" : ""));
+		if (o.arff) o.types.push_back(rng.chance(50) ? "" : rng.chance(60) ? "s" : "x|y");
+	}
+	std::vector<std::vector<Cell> > rows;
+	std::vector<bool> early;
+	int nr = rng.chance(10) ? 0 : rng.chance(70) ? rng.range(1, 6) : rng.range(7, 20);
+	if (nr == 0 && numericName && avoidLastRow) nr = 1; // (the names alone, read as a row, would be a last row without newline)
+	for (int i = 0; i < nr; i++)
+	{
+		std::vector<Cell> row;
+		bool shortRow = cols > 1 && rng.chance(15);
+		int n = shortRow ? rng.range(1, cols - 1) : cols;
+		for (int j = 0; j < n; j++)
+		{
+			Cell c = randomCell(rng, avoidTiny);
+			if (!c.num) c.s = csvString(rng);
+			row.push_back(c);
+		}
+		rows.push_back(row);
+		early.push_back(shortRow);
+	}
+	bool readable = !o.arff && ((o.sep == ',' && o.dec == '.') || (cols >= 2 && ((o.sep == ';' && o.dec == ',') || (o.sep == '\t' && o.dec == '.'))));
+	std::string problem;
+	std::string ev = runCsvW(tmp.path + (o.arff ? "/rel" : "/recw"), o, rows, early, readable, (unsigned)rng.below(6), problem);
+	if (!problem.empty()) { fprintf(stderr, "%s\n", problem.c_str()); exit(2); }
+	log.line("{\"op\":\"reset\"}");
+	log.line(ev);
+}
+
+static void csvrExecution(Rng& rng, Log& log, const TmpDir& tmp, bool avoidTiny, bool avoidLastRow)
+{
+	static const int DIALECT[3][2] = { { ',', '.' }, { ';', ',' }, { '\t', '.' } };
+	int d = rng.chance(50) ? 0 : rng.below(3);
+	char sep = (char)DIALECT[d][0], dec = (char)DIALECT[d][1];
+	int cols = rng.chance(15) ? 1 : rng.range(2, 6);
+	if (cols == 1) { sep = ','; dec = '.'; }
+	std::vector<std::string> lines;
+	if (rng.chance(75))
+	{
+		std::string h;
+		for (int j = 0; j < cols; j++) h += std::string(j ? std::string(1, sep) : "") + (char)('c' + j) + (rng.chance(30) ? " x" : "");
+		lines.push_back(h);
+	}
+	else
+	{
+		// no header line: the first row shows the dialect plainly (numbers and simple words, nothing quoted)
+		std::string l;
+		for (int j = 0; j < cols; j++)
+		{
+			if (j) l += sep;
+			if (j == 0 || rng.chance(60))
+			{
+				std::string f = g15((double)rng.range(-999, 999) / (rng.chance(50) ? 1 : 8));
+				for (size_t k = 0; k < f.size(); k++) if (f[k] == '.') f[k] = dec;
+				l += f;
+			}
+			else l += rng.chance(50) ? "word" : "X y";
+		}
+		lines.push_back(l);
+	}
+	int nr = rng.chance(8) ? 0 : rng.chance(70) ? rng.range(1, 6) : rng.range(7, 25);
+	for (int i = 0; i < nr; i++)
+	{
+		if (rng.chance(5)) { lines.push_back(""); continue; }
+		int n = rng.chance(12) ? rng.range(1, cols + 2) : cols;
+		std::string l;
+		for (int j = 0; j < n; j++)
+		{
+			if (j) l += sep;
+			Cell c = randomCell(rng, avoidTiny);
+			std::string f;
+			if (c.num) { f = c.s; for (size_t k = 0; k < f.size(); k++) if (f[k] == '.') f[k] = dec; if (rng.chance(10)) f = "\"" + f + "\""; }
+			else
+			{
+				std::string v = csvString(rng);
+				bool must = v.find(sep) != std::string::npos || v.find('"') != std::string::npos;
+				if (must || rng.chance(20))
+				{
+					f = "\"";
+					for (size_t k = 0; k < v.size(); k++) { f += v[k]; if (v[k] == '"') f += '"'; }
+					f += "\"";
+				}
+				else f = v;
+			}
+			l += f;
+		}
+		if (rng.chance(6)) l += sep;
+		lines.push_back(l);
+	}
+	bool crlf = rng.chance(40), final = avoidLastRow || rng.chance(65);
+	std::string text = rng.chance(15) ? "\xef\xbb\xbf" : "";
+	for (size_t i = 0; i < lines.size(); i++)
+	{
+		text += lines[i];
+		if (i + 1 < lines.size() || final) text += crlf ? "\r\n" : "\n";
+	}
+	log.line("{\"op\":\"reset\"}");
+	log.line(runCsvR(tmp.path + "/recr.csv", text, ""));
+}
+
 int main(int argc, char** argv)
 {
 	Args args(argc, argv);
@@ -220,10 +556,18 @@ int main(int argc, char** argv)
 	TmpDir tmp("c18");
 	bool avoidLast = args.avoid.count("LastLineNoNewline") > 0;
 	bool avoidTiny = args.avoid.count("TinyNumberScale") > 0;
+	bool avoidBom = args.avoid.count("BomFirstLine") > 0, avoidReadPersist = args.avoid.count("ReadPersisted") > 0;
+	bool avoidQuotes = args.avoid.count("QuotesNotUsed") > 0, avoidLastRow = args.avoid.count("LastRowNoNewline") > 0;
 	while (log.lines < args.events)
 	{
-		if (rng.chance(65)) iniExecution(rng, log, tmp, avoidLast);
-		else csvExecution(rng, log, tmp, avoidTiny);
+		// --mode 1: only the growth executions (sessions on one IniFile object, tables written with options, files of other tools)
+		int k = rng.below(100);
+		if (args.mode == 1) k = 50 + k / 2;
+		if (k < 33) iniExecution(rng, log, tmp, avoidLast);
+		else if (k < 50) csvExecution(rng, log, tmp, avoidTiny);
+		else if (k < 75) apiExecution(rng, log, tmp, avoidLast, avoidBom, avoidReadPersist, args.avoid.count("FailedWriteLines") > 0);
+		else if (k < 88) csvwExecution(rng, log, tmp, avoidTiny, avoidQuotes, avoidLastRow);
+		else csvrExecution(rng, log, tmp, avoidTiny, avoidLastRow);
 	}
 	return 0;
 }
